@@ -393,6 +393,7 @@ class DocGen:
         return lit
 
     nested_vars = False      # place correctly typed variables INSIDE list / object literals (C05)
+    repeat_with_directive = False   # select a key twice, the later occurrence under a variable @skip/@include
 
     def nest_vars(self, ty, lit, vars_):
         """replace some sub-literals of `lit` (valid at `ty`) by variables declared with the exact position type"""
@@ -465,6 +466,14 @@ class DocGen:
                 again = f"... on {r.choice(narrower)} {{ {again} }}"
             items += [first, again] if r.random() < 0.7 else [again, first]
             self.stats["merged"] += 1
+        # the same leaf key selected again later with a (variable) directive: merged nodes with different directives
+        if fields and vars_ is not None and self.repeat_with_directive and r.random() < 0.35:
+            leafs = [f for f in fields if base(f["type"]) in self.sg.leaf_names and not f["args"]]
+            if leafs:
+                f = r.choice(leafs)
+                v = self.new_var(NN(N("Boolean")), vars_)
+                d = r.choice(["skip", "include"])
+                items = [f["name"]] + items + [f"...  {{ {f['name']} @{d}(if: ${v}) }}" if r.random() < 0.5 else f"{f['name']} @{d}(if: ${v})"]
         if not items: items.append("__typename")
         return "{ " + " ".join(items) + " }"
 
